@@ -161,6 +161,7 @@ type Model struct {
 	ByLabel  map[*tlc.Node]map[string][]int
 	Distinct int64
 	Generated int64
+	Mining   *MiningSetup
 }
 
 func BuildModel(u *Universe, c *Concrete, res *tlc.Result) (*Model, error) {
